@@ -74,6 +74,11 @@ def _answers(eng, ureg, x, keep=None):
         out.append((label, v))
 
     Qy = ureg.Quantity
+    # asked first, before this battery itself looks any prefixed name up: case-insensitive
+    # look-ups of doubly prefixed and case-variant spellings (memoised prefixed names are not names)
+    for text in ("kkkkw", "kkkku", "KKW", "Kkw", "kkKw", "KKKW", "kkkkuu", "kkkkws"):
+        ask(f"first:parse({text},case_sensitive=False)", lambda text=text: dict(ureg.parse_units(text, case_sensitive=False)._units))
+    ask("first:kkkkw-in-registry", lambda: ("kkkkw" in ureg, "kkkku" in ureg))
     ask("w->m", lambda: Qy(x, "w").to("m").magnitude)
     ask("kku->m", lambda: Qy(x, "kku").to("m").magnitude)
     ask("u->w", lambda: Qy(x, "u").to("w").magnitude)
